@@ -46,6 +46,13 @@ def gen_case(rng, spec):
     # tiny=False: "well-conditioned weights" - the floating-point tests use absolute tolerances around 1e-8
     m = GA.gen_wfsa(rng, max_states=5, alphabet=["a", "b"][: rng.randint(1, 2)], max_arcs=8, names=None, tiny=False)
     m["names"] = list(range(m["n"]))
+    r = rng.random()
+    if r < 0.15:
+        m["names"] = [i - 2 for i in range(m["n"])]  # negative integer names (a sink called -1, ...)
+    elif r < 0.3:
+        m["names"] = [7 * i + 3 for i in range(m["n"])]  # sparse integers
+    elif r < 0.4:
+        m["names"] = [f"s{i}" for i in range(m["n"])]
     if rng.random() < 0.3:  # negative weights
         for arc in m["arcs"]:
             if rng.random() < 0.4:
